@@ -1509,7 +1509,7 @@ pub fn run(args: &Args, out: &mut Out) {
         return;
     }
     let mut rng = Rng::new(args.seed);
-    let n = args.n.unwrap_or(if args.thorough() { 40000 } else { 1200 });
+    let n = args.n.unwrap_or(if args.thorough() { 100000 } else { 2000 });
     let mut programs = 0u64;
     for _ in 0..n {
         for p in generate(&mut rng, &mut hist) {
